@@ -788,3 +788,7 @@ CONTROLS['C03'] += [
     C('keyed multi-worker prefetch asks itself for keys() (CS)',
       expr_replace('core', 'PrefetchDataset.__iter__', 'input_dataset.keys()', 'self.keys()'), 'CS'),
 ]
+CONTROLS['C11'] += [
+    C('the wrapper no longer says how it is pickled (G2)',
+      F('core', '_DiskCacheWrapper', lambda n: isinstance(n, ast.FunctionDef) and n.name == '__getstate__', M.delete), 'copy-in-another-process', tier='quick'),
+]
